@@ -21,6 +21,16 @@ Streams (all from chk.rng):
           have the same digest.  On a difference the texts are fetched and the first differing line is
           reported; a difference that only permutes / renumbers the ports of implicitly created domains is
           classified F3.  The domain extraction of the same designs is also sent through `frag`.
+  refrag  designs that own `Fragment` objects living across elaborations - built by hand (`Fragment()` +
+          add_statements / add_subfragment / add_domains) or obtained once by `Fragment.get(elaboratable, None)` - used
+          as submodule directly, inside a Module wrapped by ResetInserter / EnableInserter / DomainRenamer (chains of
+          1-2, dict controls over several domains), with the transformer applied to the Fragment itself (once at
+          build time, or again in every `elaborate()`), as the top-level object, or returned by an Elaboratable's
+          `elaborate()`.  In fresh interpreters under 2 (quick) / 6 hash seeds the same objects are converted three
+          times and a design rebuilt from the seed once; all texts (or exceptions, addresses masked) must be one.
+          Differences on the unchanged tree are classified F37 (origins grow: DuplicateElaboratable) / F36 (stale
+          ClockDomain of an implicitly created domain kept by the stored Fragment) by the structure of the outcome;
+          two fixed witnesses (one per finding) are converted on every run.
   sim     generated designs + testbenches (set/get/tick/delay/memory access, background testbench, process,
           clocks): run (fully, `run_until`, or k x `advance`) -> dump the engine's object graph -> `reset()`
           -> dump; compared with a freshly constructed simulator and with the Model's `reset` / `initial`;
@@ -41,6 +51,7 @@ import io
 import json
 import os
 import random
+import re
 import shutil
 import subprocess
 import sys
@@ -357,11 +368,363 @@ def convert_same_twice(seed):
     return out[0], out[1]
 
 
+# ================================================================================================
+# designs that OWN `Fragment` objects (stream `refrag`)
+#
+# `Module.elaborate()` makes its fragments afresh on every elaboration, so a transformer or a later pass that
+# writes into the fragment it is given stays invisible in the designs above.  The designs here keep `Fragment`
+# objects alive across elaborations: built by hand (`Fragment()` + add_statements / add_subfragment /
+# add_domains) or obtained once with `Fragment.get(elaboratable, None)`, then used as a submodule (directly,
+# inside a Module that is wrapped by ResetInserter / EnableInserter / DomainRenamer, or with the transformer
+# applied to the Fragment itself - once when the design is built, or again in every `elaborate()`), as the
+# top-level object, or returned by an Elaboratable's `elaborate()`.  The same objects are converted three
+# times and a design rebuilt from the seed once: the four texts must be byte-identical.
+
+F37 = "F37"     # an Elaboratable whose elaborate() returns a stored Fragment: Fragment.get prepends it to the Fragment's
+                # `origins` on every elaboration, the second conversion raises DuplicateElaboratable
+F36 = "F36"     # a stored Fragment keeps the ClockDomain objects propagated into it (or created in it) by the first
+                # elaboration: F32's mechanism on plain Fragments (the repair of F32 covers Instance/IOBufferInstance)
+
+REFRAG_DOMS = ["sync", "pix", "aux", "fast"]
+REFRAG_WITNESSES = {-1: "witness-origins", -2: "witness-stale-domain"}
+
+
+def build_refrag(seed):
+    """returns (top, convert kwargs, meta).  Deterministic in `seed` alone; elaborating the result does not draw
+    random numbers (everything random is decided here)."""
+    from amaranth.hdl import (Signal, Module, ClockDomain, DomainRenamer, ResetInserter, EnableInserter, Elaboratable,
+                              Fragment, Mux, Cat, Const)
+    if seed in REFRAG_WITNESSES:
+        a, o = Signal(4, name="a"), Signal(4, name="o")
+        fr = Fragment()
+        if seed == -1:
+            fr.add_statements("comb", o.eq(a + 1))
+
+            class W(Elaboratable):
+                def elaborate(self, platform):
+                    return fr
+            top = W()
+            meta = {"seed": seed, "top": "witness", "mode": "declared", "implicit": [], "returns_stored": True}
+        else:
+            fr.add_statements("sync", o.eq(a + 1))
+            top = Module()
+            top.submodules += fr
+            meta = {"seed": seed, "top": "witness", "mode": "implicit", "implicit": ["sync"], "returns_stored": False}
+        meta.update({"features": [REFRAG_WITNESSES[seed]], "transforms": [], "reset_over_stored": False, "frags": ["hand"]})
+        return top, {"ports": [a, o], "emit_src": False}, meta
+
+    rng = random.Random(f"refrag-{seed}")
+    doms = rng.sample(REFRAG_DOMS, rng.choice([1, 1, 2, 2, 3]))
+    r = rng.random()
+    mode = "implicit" if r < 0.10 else "declared"
+    returns_stored = rng.random() < 0.07
+    top_kind = rng.choice(["module", "module", "elab", "elab", "elab", "fragtop", "gettop"])
+    used = set(doms)                   # every domain name some statement ends up in (after renaming)
+    features = set()
+    xforms = []
+    counter = [0]
+    ins = [Signal(rng.randint(1, 6), name=f"i{k}") for k in range(rng.randint(2, 3))]
+    ctls = []
+    outs = []
+
+    def nm(prefix):
+        counter[0] += 1
+        return f"{prefix}{counter[0]}"
+
+    def reg():
+        w = rng.randint(1, 6)
+        s = Signal(w, name=nm("r"), init=rng.randint(0 if rng.random() < 0.2 else 1, (1 << w) - 1),
+                   reset_less=rng.random() < 0.1)
+        outs.append(s)
+        return s
+
+    def ctl():
+        c = Signal(name=nm("c"))
+        ctls.append(c)
+        return c
+
+    def expr(pool):
+        a, b = rng.choice(pool), rng.choice(pool)
+        k = rng.randint(0, 6)
+        if k == 0:
+            return a + b
+        if k == 1:
+            return a ^ b
+        if k == 2:
+            return Mux(rng.choice(ins)[0], a, b - 1)
+        if k == 3:
+            return ~a
+        if k == 4:
+            return Cat(a[:rng.randint(0, len(a))], b)
+        if k == 5:
+            return (a == b) | (a[0] & b[-1])
+        return a + Const(rng.randint(0, 7), 3)
+
+    def hand_frag(depth, my_doms):
+        f = Fragment()
+        regs = []
+        for d in my_doms:
+            for _ in range(rng.randint(1, 2)):
+                x = reg()
+                regs.append(x)
+                f.add_statements(d, x.eq(expr(ins + regs)))
+        if rng.random() < 0.6:
+            y = Signal(rng.randint(1, 6), name=nm("y"))
+            outs.append(y)
+            f.add_statements("comb", y.eq(expr(ins + regs)))
+        if rng.random() < 0.15:                          # a domain the fragment defines itself
+            f.add_domains(ClockDomain("loc", reset_less=rng.random() < 0.5))
+            x = reg()
+            f.add_statements("loc", x.eq(x + 1))
+            features.add("own-domain")
+        if depth > 0 and rng.random() < 0.4:
+            child = (hand_frag if rng.random() < 0.6 else got_frag)(depth - 1, my_doms)
+            f.add_subfragment(child, rng.choice([None, "c", "core"]))
+            features.add("nested")
+        return f
+
+    def got_frag(depth, my_doms):
+        m = Module()
+        regs = []
+        for d in my_doms:
+            x, y = reg(), reg()
+            regs += [x, y]
+            with m.If(rng.choice(ins)[0]):
+                m.d[d] += x.eq(expr(ins + regs))
+            with m.Else():
+                m.d[d] += [x.eq(x - 1), y.eq(expr(ins + regs))]
+            if rng.random() < 0.5:
+                z = reg()
+                with m.Switch(rng.choice(ins)):
+                    with m.Case(0):
+                        m.d[d] += z.eq(expr(ins + regs))
+                    with m.Default():
+                        m.d.comb += Signal(name=nm("y")).eq(z[0])
+        if depth > 0 and rng.random() < 0.3:
+            m.submodules[rng.choice(["leaf", "core"])] = hand_frag(depth - 1, my_doms)
+            features.add("nested")
+        if rng.random() < 0.5:
+            class Leaf(Elaboratable):
+                def elaborate(self, platform):
+                    return m
+            return Fragment.get(Leaf(), None)
+        return Fragment.get(m, None)
+
+    def transform(cur):
+        """a chain of 1-2 transformers aimed (mostly) at the domains `cur`; returns (function, domains afterwards)"""
+        chain = []
+        cur = list(cur)
+        for _ in range(rng.choice([1, 1, 1, 2])):
+            k = rng.choice(["reset", "reset", "enable", "rename"])
+            if k == "rename":
+                src = rng.choice(cur)
+                dst = rng.choice([d for d in REFRAG_DOMS if d != src])
+                if dst in cur:
+                    continue
+                chain.append(DomainRenamer({src: dst}) if rng.random() < 0.7 or src != "sync" else DomainRenamer(dst))
+                cur[cur.index(src)] = dst
+                used.add(dst)
+            else:
+                tg = [d for d in cur if rng.random() < 0.8] or [rng.choice(cur)]
+                if rng.random() < 0.1:
+                    tg.append(rng.choice(REFRAG_DOMS))      # a domain that may not occur below
+                ctrl = {d: ctl() for d in dict.fromkeys(tg)}
+                cls = ResetInserter if k == "reset" else EnableInserter
+                chain.append(cls(ctrl["sync"]) if list(ctrl) == ["sync"] and rng.random() < 0.5 else cls(ctrl))
+            xforms.append(k)
+
+        def apply(obj):
+            for t in chain:
+                obj = t(obj)
+            return obj
+        return apply, cur, [type(t).__name__ for t in chain]
+
+    # the stored fragments and where they go
+    places = []                       # (submodule name or None, function returning the submodule)
+    frag_kinds = []
+    reset_over_stored = False
+    for _ in range(rng.randint(1, 3)):
+        my = rng.sample(doms, rng.randint(1, min(2, len(doms))))
+        kind = rng.choice(["hand", "hand", "got"])
+        frag_kinds.append(kind)
+        f = (hand_frag if kind == "hand" else got_frag)(rng.randint(0, 1), my)
+        name = rng.choice([None, None, nm("u"), nm("core")])
+        if returns_stored and not any(p[2] == "returns-stored" for p in places):
+            class W(Elaboratable):
+                def __init__(self, f):
+                    self.f = f
+
+                def elaborate(self, platform):
+                    return self.f
+            w = W(f)
+            if rng.random() < 0.4:
+                ap, _cur, names = transform(my)
+                w = ap(w)
+            places.append((name, (lambda w=w: w), "returns-stored"))
+            continue
+        how = rng.choice(["direct", "xf-build", "xf-elab", "xf-elab", "inner-xf", "inner-xf", "inner-xf-stored"])
+        if how == "direct":
+            places.append((name, (lambda f=f: f), how))
+            continue
+        ap, cur, names = transform(my)
+        reset_over_stored = reset_over_stored or "ResetInserter" in names
+        if how == "xf-build":
+            g = ap(f)
+            places.append((name, (lambda g=g: g), how))
+        elif how == "xf-elab":
+            places.append((name, (lambda f=f, ap=ap: ap(f)), how))
+        else:
+            acc = reg()
+            d0 = my[0]
+            st = acc.eq(acc + outs[0][0])
+            inner_name = rng.choice([None, "core", "blk"])
+
+            def mk_inner(f=f, ap=ap, d0=d0, st=st, inner_name=inner_name):
+                inner = Module()
+                if inner_name is None:
+                    inner.submodules += f
+                else:
+                    inner.submodules[inner_name] = f
+                inner.d[d0] += st
+                return ap(inner)
+            if how == "inner-xf-stored":
+                g = mk_inner()
+                places.append((name, (lambda g=g: g), how))
+            else:
+                places.append((name, mk_inner, how))
+    for _n, _mk, how in places:
+        features.add(how)
+
+    # the clock domains the design owns (the same ClockDomain objects in every elaboration)
+    declared = sorted(used)
+    implicit = []
+    if mode == "implicit":
+        implicit = sorted(rng.sample(declared, rng.randint(1, len(declared))))
+        declared = [d for d in declared if d not in implicit]
+    cds = [ClockDomain(d, reset_less=rng.random() < 0.25, async_reset=rng.random() < 0.2) for d in declared]
+    top_regs = []
+    top_stmts = []
+    for d in rng.sample(doms, rng.randint(0, len(doms))):
+        x = reg()
+        top_regs.append(x)
+        top_stmts.append((d, x.eq(expr(ins + outs))))
+
+    def construct():
+        m = Module()
+        for cd in cds:
+            m.domains += cd
+        for d, st in top_stmts:
+            m.d[d] += st
+        for name, mk, _how in places:
+            if name is None:
+                m.submodules += mk()
+            else:
+                m.submodules[name] = mk()
+        return m
+
+    class Top(Elaboratable):
+        def elaborate(self, platform):
+            return construct()
+
+    if top_kind == "module":
+        top = construct()
+    elif top_kind == "elab":
+        top = Top()
+    elif top_kind == "gettop":
+        top = Fragment.get(Top(), None)
+    else:
+        top = Fragment()
+        top.add_domains(cds)
+        for d, st in top_stmts:
+            top.add_statements(d, st)
+        for name, mk, _how in places:
+            top.add_subfragment(Fragment.get(mk(), None), name)
+    ports = list(ins) + list(ctls) + [s for s in outs if rng.random() < 0.4]
+    for cd in cds:
+        if rng.random() < 0.5:
+            ports.append(cd.clk)
+            if cd.rst is not None and rng.random() < 0.5:
+                ports.append(cd.rst)
+    meta = {"seed": seed, "top": top_kind, "mode": mode, "implicit": implicit, "declared": declared,
+            "returns_stored": any(p[2] == "returns-stored" for p in places), "features": sorted(features),
+            "transforms": xforms, "reset_over_stored": reset_over_stored, "frags": frag_kinds}
+    return top, {"ports": ports, "emit_src": rng.random() < 0.2}, meta
+
+
+def convert_refrag(seed, n_same=3):
+    """build the design of `seed` once, convert the same objects `n_same` times, then rebuild it and convert once
+    more; returns a list of (kind, text)"""
+    import warnings
+    warnings.simplefilter("ignore")
+    from amaranth.back import rtlil
+    out = []
+    for rebuilt in (False, True):
+        try:
+            top, kwargs, _meta = build_refrag(seed)
+        except Exception as e:  # noqa: BLE001
+            out += [("build-error", f"{common.errkind(e)}: {e}")] * (1 if rebuilt else n_same)
+            continue
+        for _ in range(1 if rebuilt else n_same):
+            try:
+                out.append(("ok", rtlil.convert(top, **kwargs)))
+            except Exception as e:  # noqa: BLE001
+                out.append(("error", re.sub(r" at 0x[0-9a-fA-F]+", " at 0x?", f"{common.errkind(e)}: {e}")))
+    return out
+
+
+def classify_refrag(meta, kinds, texts):
+    """classes of a design whose conversions differ.  Both classes demand that the first conversion equals the
+    rebuilt design's (so the difference is an effect of the earlier elaboration on the stored objects).
+    F37: the design has an Elaboratable returning a stored Fragment, and every later conversion of the same objects
+    raises DuplicateElaboratable.  F36: a stored Fragment uses an implicitly created domain, every conversion succeeds,
+    and the texts are equal line for line (as multisets, port numbers aside) once the clock and reset of such domains read
+    as constant 0 - what a stale ClockDomain gives - and the lines declaring / connecting those wires are left out."""
+    import re
+    import collections
+    if kinds[0] != kinds[-1] or texts[0] != texts[-1]:
+        return []
+    same = list(zip(kinds[1:-1], texts[1:-1]))
+    if meta.get("returns_stored") and kinds[0] == "ok" and same and \
+            all(k == "error" and "DuplicateElaboratable:" in t[:40] and "is included twice" in t for k, t in same):
+        return [F37]
+    imp = meta.get("implicit") or []
+    if imp and all(k == "ok" for k in kinds):
+        dom_sigs = set()
+        for d in imp:
+            dom_sigs |= {"clk", "rst"} if d == "sync" else {f"{d}_clk", f"{d}_rst"}
+        pat = re.compile(r"\\(" + "|".join(sorted(dom_sigs)) + r")(\$\d+)? \[0\]")
+
+        def view(t):
+            out = collections.Counter()
+            for l in t.splitlines():
+                l = pat.sub("1'0", _norm_line(l))
+                if not l.strip() or l.strip().startswith("attribute \\src ") or \
+                        set(x.split("$")[0] for x in re.findall(r"\\([A-Za-z0-9_$]+)", l)) & dom_sigs:
+                    continue
+                out[l] += 1
+            return out
+        base = view(texts[0])
+        if any(view(t) != base for _k, t in same):
+            return []
+        return [F36]
+    return []
+
+
 def child_main():
     """runs in a fresh interpreter: argv = mode, design seeds...; prints one JSON line"""
     mode = sys.argv[1]
     seeds = [int(x) for x in sys.argv[2:]]
     out = []
+    if mode in ("refrag", "refrag-text"):
+        for s in seeds:
+            res = convert_refrag(s)
+            rec = {"seed": s, "kind": [k for k, _t in res], "sha": [hashlib.sha256(t.encode()).hexdigest() for _k, t in res],
+                   "lines": res[0][1].count("\n")}
+            if mode == "refrag-text":
+                rec["text"] = [t for _k, t in res]
+            out.append(rec)
+        sys.stdout.write(json.dumps({"hashseed": os.environ.get("PYTHONHASHSEED"), "results": out}) + "\n")
+        return
     if mode == "plan":
         import warnings
         warnings.simplefilter("ignore")
@@ -508,6 +871,108 @@ def stream_diff(chk, n_designs, hashseeds, chunk):
                 "classes": classes})
     chk.extra.setdefault("diff", {}).update({"designs": n_designs, "hashseeds": list(hashseeds), "differing": n_diff})
     return seeds
+
+
+def stream_refrag(chk, n_designs, hashseeds, chunk):
+    """designs owning Fragment objects: the same objects converted three times + once rebuilt, in fresh
+    interpreters under `hashseeds`; all texts (or exceptions) of a design must be one"""
+    rng = chk.rng
+    seeds = sorted(REFRAG_WITNESSES) + [rng.getrandbits(40) for _ in range(n_designs)]
+    chunks = [seeds[i:i + chunk] for i in range(0, len(seeds), chunk)]
+    jobs = [(h, c) for c in chunks for h in hashseeds]
+    table = {}
+    with ThreadPoolExecutor(max_workers=min(16, os.cpu_count() or 4)) as ex:
+        for (h, _c), res in zip(jobs, ex.map(lambda j: run_child(j[0], j[1], mode="refrag"), jobs)):
+            for r in res["results"]:
+                table.setdefault(r["seed"], {})[h] = r
+    import warnings
+    warnings.simplefilter("ignore")
+    differing = []
+    for s in seeds:
+        per = table[s]
+        try:
+            _top, _kw, meta = build_refrag(s)
+        except Exception as e:  # noqa: BLE001
+            meta = {"seed": s, "top": "build-error:" + common.errkind(e), "features": [], "transforms": [], "frags": []}
+        first = per[hashseeds[0]]
+        chk.count(sum(len(per[h]["sha"]) for h in hashseeds))
+        chk.hist("refrag: top object", meta.get("top"))
+        chk.hist("refrag: domains", meta.get("mode"))
+        chk.hist("refrag: outcome of the first conversion", first["kind"][0] if first["kind"][0] != "error" else "error")
+        for f in meta.get("features", []):
+            chk.hist("refrag: placement of a stored Fragment", f)
+        for f in meta.get("frags", []):
+            chk.hist("refrag: stored Fragment made by", {"hand": "Fragment() + add_*", "got": "Fragment.get once"}.get(f, f))
+        for t in meta.get("transforms", []) or ["none"]:
+            chk.hist("refrag: transformer over a stored Fragment", t)
+        chk.hist("refrag: ResetInserter covers a stored Fragment", bool(meta.get("reset_over_stored")))
+        chk.distinct(("refrag", s), nontrivial=bool(meta.get("transforms")) and first["kind"][0] == "ok")
+        shas = {}
+        for h in hashseeds:
+            for k, x in enumerate(per[h]["sha"]):
+                shas.setdefault(x, []).append((h, k))
+        if len(shas) == 1:
+            chk.sample({"stream": "refrag", "design_seed": s, "top": meta.get("top"), "features": meta.get("features"),
+                        "transforms": meta.get("transforms"), "rtlil_lines": first["lines"], "sha256": next(iter(shas))[:16],
+                        "conversions": "3 of the same objects + 1 rebuilt, x %d hash seeds" % len(hashseeds)}, limit=8)
+            continue
+        # the interpreter in which to look: one whose own conversions differ, else the two of different texts
+        h_in = next((h for h in hashseeds if len(set(per[h]["sha"])) > 1), None)
+        differing.append((s, meta, h_in, len(shas)))
+    fetch = {}
+    for s, _meta, h_in, _n in differing:
+        for h in ([h_in] if h_in is not None else hashseeds):
+            fetch.setdefault(h, []).append(s)
+    texts = {}
+    fjobs = [(h, ss[i:i + 8]) for h, ss in sorted(fetch.items()) for i in range(0, len(ss), 8)]
+    with ThreadPoolExecutor(max_workers=min(16, os.cpu_count() or 4)) as ex:
+        for (h, _c), res in zip(fjobs, ex.map(lambda j: run_child(j[0], j[1], mode="refrag-text"), fjobs)):
+            for r in res["results"]:
+                texts[(h, r["seed"])] = r
+    label = ["conversion 1", "conversion 2 of the same objects", "conversion 3 of the same objects", "the rebuilt design"]
+    for s, meta, h_in, n_texts in differing:
+        replay_cmd = (f"cd /verif && PYTHONHASHSEED=<h> /venv/bin/python -c \"from harness.checks import c09; "
+                      f"print(c09.convert_refrag({s}))\"")
+        if h_in is None:
+            ha = hashseeds[0]
+            hb = next(h for h in hashseeds if texts[(h, s)]["text"] != texts[(ha, s)]["text"]) \
+                if any(texts[(h, s)]["text"] != texts[(ha, s)]["text"] for h in hashseeds) else None
+            chk.hist("refrag: differing designs", "between interpreters")
+            if hb is None:
+                report(chk, f"rtlil.convert of refrag design {s} differed between interpreters (not reproduced when run again)",
+                       {"stream": "refrag", "design_seed": s, "meta": meta, "replay": replay_cmd, "classes": []})
+                continue
+            line, xa, xb, _cl = classify_text_diff({}, texts[(ha, s)]["text"][0], texts[(hb, s)]["text"][0])
+            report(chk, f"rtlil.convert of refrag design {s} (a design owning Fragment objects) differs between PYTHONHASHSEED={ha} "
+                        f"and {hb}; first difference at line {line}: {xa.strip()!r} / {xb.strip()!r}",
+                   {"stream": "refrag", "design_seed": s, "meta": meta, "hashseed_a": ha, "hashseed_b": hb, "line": line,
+                    "line_a": xa, "line_b": xb, "replay": replay_cmd, "classes": []})
+            continue
+        r = texts[(h_in, s)]
+        kinds, tx = r["kind"], r["text"]
+        k = next((i for i in range(1, len(tx)) if tx[i] != tx[0] or kinds[i] != kinds[0]), None)
+        if k is None:
+            chk.hist("refrag: differing designs", "not reproduced")
+            report(chk, f"rtlil.convert of refrag design {s} differed within one interpreter (not reproduced when run again)",
+                   {"stream": "refrag", "design_seed": s, "meta": meta, "replay": replay_cmd, "classes": []})
+            continue
+        classes = classify_refrag(meta, kinds, tx)
+        chk.hist("refrag: differing designs", ",".join(classes) or "unclassified")
+        if kinds[0] == "ok" and kinds[k] == "ok":
+            line, xa, xb, _cl = classify_text_diff({}, tx[0], tx[k])
+            what = f"first difference at line {line}: {xa.strip()!r} / {xb.strip()!r}"
+        else:
+            line, xa, xb = 0, tx[0][:200] if kinds[0] != "ok" else "<text>", tx[k][:200] if kinds[k] != "ok" else "<text>"
+            what = f"outcomes {kinds[0]} / {kinds[k]}: {xb if kinds[k] != 'ok' else xa}"
+        report(chk,
+               f"rtlil.convert of refrag design {s} (top: {meta.get('top')}; stored Fragment placed {'/'.join(meta.get('features', []))}; "
+               f"transformers {meta.get('transforms')}): {label[k]} differs from conversion 1 in the same interpreter "
+               f"(PYTHONHASHSEED={h_in}; {n_texts} distinct texts in all): {what}",
+               {"stream": "refrag", "design_seed": s, "meta": meta, "hashseed": h_in, "kinds": kinds, "differs": label[k],
+                "line": line, "line_a": xa, "line_b": xb, "text_lines": [t.count("\n") for t in tx],
+                "replay": replay_cmd.replace("<h>", str(h_in)), "classes": classes})
+    chk.extra.setdefault("refrag", {}).update({"designs": len(seeds), "hashseeds": list(hashseeds), "differing": len(differing),
+                                               "witnesses": sorted(REFRAG_WITNESSES.values())})
 
 
 # ================================================================================================
@@ -1917,6 +2382,7 @@ def run(chk):
     n_designs = 96 if quick else 360
     hashseeds = [0] + sorted(rng.sample(range(1, 100000), 5 if quick else 47))
     chunk = 6 if quick else 30
+    n_refrag = 144 if quick else 2400
     n_frag = 600 if quick else 12000
     n_sim = 160 if quick else 2400
     n_poke = 150 if quick else 3000
@@ -1941,6 +2407,9 @@ def run(chk):
     stage("poke")
     stream_plan(chk, n_platform, n_synth, hashseeds if quick else hashseeds[:12])
     stage("plan")
+    # drawn last, so that the streams above see the same random sequence as before this stream existed
+    stream_refrag(chk, n_refrag, hashseeds[:2] if quick else hashseeds[:6], 24 if quick else 100)
+    stage("refrag")
 
     classes_seen = chk.extra.get("distribution", {}).get("violation classes", {})
     f3_seen = any(F3 in k.split(",") for k in chk.extra.get("distribution", {}).get("diff: differing designs", {}))
@@ -1955,7 +2424,10 @@ def run(chk):
     chk.extra["exhaustive"] = {"F21 witness": "the scenario of prelim/repro/c09_reset_active_triggers.py is replayed on every run"}
     chk.cov["rule"] = (
         "diff: designs rebuilt from a seed in fresh interpreters (one per PYTHONHASHSEED and chunk), converted twice each; "
-        "distinct = design seed, non-trivial = at least two implicitly created clock domains. frag: random fragment trees x "
+        "distinct = design seed, non-trivial = at least two implicitly created clock domains. refrag: designs owning "
+        "Fragment objects (hand-built or Fragment.get once; under control inserters / DomainRenamer; as submodule, top or "
+        "returned by elaborate()), the same objects converted three times + once rebuilt per interpreter; distinct = design "
+        "seed, non-trivial = a transformer covers a stored Fragment and the conversion succeeds. frag: random fragment trees x "
         "callbacks and the domain view of the diff designs; distinct = (tree, callback), non-trivial = at least two missing "
         "domains. sim: random scenarios (design, clocks, testbench programs, stop mode); distinct = scenario, non-trivial = at "
         "least four of the eight state components differ from their reset value when reset() is called. poke: random "
